@@ -107,7 +107,9 @@ func ruleR11(c *Ctx, dv *dev, modes []string, rule string) {
 				continue
 			}
 			if len(np.TrackSets) == 0 && (!spec.counted || len(np.CtrSets) == 0) {
-				if len(np.Sends) == 0 && len(np.OtherWrites) == 0 {
+				if np.Mode != "" {
+					c.Bad(rule, key, pos, fmt.Sprintf("a press that reached collision mode %q returns without recording the key as a holder (tracker entry + counter): the pitch is released while this key still holds it, and this key's release emits nothing", np.Mode))
+				} else if len(np.Sends) == 0 && len(np.OtherWrites) == 0 {
 					c.OK(rule, key, pos, "early return: nothing emitted, nothing recorded")
 				} else {
 					c.Bad(rule, key, pos, fmt.Sprintf("path emits %s (or writes state) but records nothing in %s: the release could never find it", np.kinds(), spec.tracker))
